@@ -214,3 +214,182 @@ pub proof fn lemma_gvc_intro(w1: World, w2: World, ctx: Context, all: Seq<Signer
         gvc_choice(w1, new_calls(w1, w2), ctx, all, r.0, r.2@, k),
     ensures gvc_post(w1, w2, ctx, all, r),
 {}
+
+// ---- authenticate (C03: "every supplied signature verifies") ----
+/// what authenticating one (signer, signature) entry leaves behind: External(verifier, key) = a `verify` call on the
+/// payload that answered TRUE; Delegated(addr) = addr's authorization for the argument vector [payload]
+pub open spec fn verify_call(payload: Seq<u8>, verifier: Address, key: Bytes, sig: Bytes) -> Call {
+    Call { callee: verifier, func: fn_verify(), args: seq![SV::Bytes(payload), key.sv(), sig.sv()], ret: SV::Bool(true), ok: true }
+}
+pub open spec fn auth_calls(payload: Seq<u8>, entries: Seq<(Signer, Bytes)>) -> Seq<Call>
+    decreases entries.len()
+{
+    if entries.len() == 0 { Seq::empty() } else {
+        let rest = auth_calls(payload, entries.drop_last());
+        match entries.last().0 {
+            Signer::External(v, k) => rest.push(verify_call(payload, v, k, entries.last().1)),
+            Signer::Delegated(a) => rest,
+        }
+    }
+}
+pub open spec fn auth_args_after(base: Set<(Address, Seq<SV>)>, payload: Seq<u8>, entries: Seq<(Signer, Bytes)>) -> Set<(Address, Seq<SV>)>
+    decreases entries.len()
+{
+    if entries.len() == 0 { base } else {
+        let rest = auth_args_after(base, payload, entries.drop_last());
+        match entries.last().0 {
+            Signer::External(v, k) => rest,
+            Signer::Delegated(a) => rest.insert((a, seq![SV::Bytes(payload)])),
+        }
+    }
+}
+pub open spec fn authenticate_post(w1: World, w2: World, payload: Seq<u8>, entries: Seq<(Signer, Bytes)>) -> bool {
+    w2 == (World { calls: w1.calls + auth_calls(payload, entries), auth_args: auth_args_after(w1.auth_args, payload, entries), ext: w2.ext, ..w1 })
+}
+pub proof fn lemma_auth_step(w0: World, w1: World, w2: World, payload: Seq<u8>, entries: Seq<(Signer, Bytes)>, i: int)
+    requires
+        0 <= i < entries.len(),
+        authenticate_post(w0, w1, payload, entries.take(i)),
+        match entries[i].0 {
+            Signer::External(v, k) => xcall_post(w1, w2, v, fn_verify(), seq![SV::Bytes(payload), k.sv(), entries[i].1.sv()], SV::Bool(true)),
+            Signer::Delegated(a) => w2 == w_auth_args(w1, a, seq![SV::Bytes(payload)]),
+        },
+    ensures authenticate_post(w0, w2, payload, entries.take(i + 1)),
+{
+    lemma_take_step(entries, i);
+    match entries[i].0 {
+        Signer::External(v, k) => {
+            assert(w2.calls =~= w0.calls + auth_calls(payload, entries.take(i + 1)));
+        }
+        Signer::Delegated(a) => {}
+    }
+}
+
+// ---- do_check_auth (C03: the whole check) ----
+pub type VC = (ContextRule, Context, Vec<Signer>);
+/// the registry as the selection sees it depends only on the persistent store and the ledger sequence
+pub proof fn lemma_live_rules_same(w1: World, w2: World, ids: Seq<u32>)
+    requires w1.persistent == w2.persistent, w1.ledger_seq == w2.ledger_seq,
+    ensures live_rules_rev(w1, ids) == live_rules_rev(w2, ids), ids_exist(w1, ids) == ids_exist(w2, ids),
+    decreases ids.len()
+{
+    if ids.len() > 0 { lemma_live_rules_same(w1, w2, ids.drop_last()); }
+    assert(ids_exist(w1, ids) == ids_exist(w2, ids)) by {
+        assert forall|id: u32| sa_exists(w1, id) == sa_exists(w2, id) by {}
+    }
+}
+pub proof fn lemma_candidates_same(w1: World, w2: World, t: ContextRuleType)
+    requires w1.persistent == w2.persistent, w1.ledger_seq == w2.ledger_seq,
+    ensures candidates(w1, t) == candidates(w2, t), candidates_exist(w1, t) == candidates_exist(w2, t),
+{
+    lemma_live_rules_same(w1, w2, sa_ids(w1, t));
+    lemma_live_rules_same(w1, w2, sa_ids(w1, ContextRuleType::Default));
+}
+/// selection of one context, stated against a fixed registry world `w` and the slice of the log it produced
+pub open spec fn gvc_seg(w: World, seg: Seq<Call>, ctx: Context, all: Seq<Signer>, vc: VC) -> bool {
+    &&& candidates_exist(w, ctx_rule_type(ctx))
+    &&& vc.1 == ctx
+    &&& exists|k: int| #[trigger] gvc_choice(w, seg, ctx, all, vc.0, vc.2@, k)
+}
+/// `seg` = the log of validating contexts ctxs[0..vcs.len()) one after the other, with results vcs
+pub open spec fn validated_log(w: World, seg: Seq<Call>, ctxs: Seq<Context>, all: Seq<Signer>, vcs: Seq<VC>) -> bool
+    decreases vcs.len()
+{
+    if vcs.len() == 0 { seg.len() == 0 } else {
+        exists|p: int| 0 <= p <= seg.len() && validated_log(w, #[trigger] seg.take(p), ctxs, all, vcs.drop_last())
+            && gvc_seg(w, seg.skip(p), ctxs[vcs.len() - 1], all, vcs.last())
+    }
+}
+pub proof fn lemma_validated_step(w0: World, wa: World, w1: World, w2: World, ctxs: Seq<Context>, all: Seq<Signer>, vcs: Seq<VC>, r: VC)
+    requires
+        wa.persistent == w0.persistent, wa.ledger_seq == w0.ledger_seq, wa.this == w0.this,
+        calls_ext(wa, w1), validated_log(w0, new_calls(wa, w1), ctxs, all, vcs), vcs.len() < ctxs.len(),
+        gvc_post(w1, w2, ctxs[vcs.len() as int], all, r),
+    ensures
+        calls_ext(wa, w2), validated_log(w0, new_calls(wa, w2), ctxs, all, vcs.push(r)),
+{
+    let ctx = ctxs[vcs.len() as int];
+    lemma_calls_ext_trans(wa, w1, w2);
+    lemma_candidates_same(w1, w0, ctx_rule_type(ctx));
+    let seg = new_calls(wa, w2);
+    let p = new_calls(wa, w1).len() as int;
+    assert(seg.take(p) =~= new_calls(wa, w1));
+    assert(seg.skip(p) =~= new_calls(w1, w2));
+    let k = choose|k: int| #[trigger] gvc_choice(w1, new_calls(w1, w2), ctx, all, r.0, r.2@, k);
+    assert(gvc_choice(w0, seg.skip(p), ctx, all, r.0, r.2@, k));
+    assert(vcs.push(r).drop_last() =~= vcs);
+    assert(gvc_seg(w0, seg.skip(p), ctxs[vcs.push(r).len() - 1], all, vcs.push(r).last()));
+}
+
+pub open spec fn enforce_call(this: Address, p: Address, ctx: Context, a: Seq<Signer>, rule: ContextRule) -> Call {
+    Call { callee: p, func: fn_enforce(), args: seq![ctx.sv(), seq_sv(a), rule.sv(), this.sv()], ret: SV::Void, ok: true }
+}
+/// `enforce` on the first n policies of the validated context's rule, in order
+pub open spec fn enforce_rule_calls(this: Address, vc: VC, n: int) -> Seq<Call>
+    decreases n
+{
+    if n <= 0 { Seq::empty() } else { enforce_rule_calls(this, vc, n - 1).push(enforce_call(this, vc.0.policies@[n - 1], vc.1, vc.2@, vc.0)) }
+}
+/// `enforce` on all policies of the first m validated contexts, context by context
+pub open spec fn enforce_calls(this: Address, vcs: Seq<VC>, m: int) -> Seq<Call>
+    decreases m
+{
+    if m <= 0 { Seq::empty() } else { enforce_calls(this, vcs, m - 1) + enforce_rule_calls(this, vcs[m - 1], vcs[m - 1].0.policies@.len() as int) }
+}
+pub proof fn lemma_enforce_step(w0: World, w1: World, w2: World, vcs: Seq<VC>, i: int, j: int, av: Vec<Signer>)
+    requires
+        calls_ext(w0, w1), 0 <= i < vcs.len(), 0 <= j < vcs[i].0.policies@.len(), av@ == vcs[i].2@,
+        new_calls(w0, w1) == enforce_calls(w0.this, vcs, i) + enforce_rule_calls(w0.this, vcs[i], j),
+        xcall_post(w1, w2, vcs[i].0.policies@[j], fn_enforce(), seq![vcs[i].1.sv(), av.sv(), vcs[i].0.sv(), w0.this.sv()], SV::Void),
+    ensures
+        calls_ext(w0, w2),
+        new_calls(w0, w2) == enforce_calls(w0.this, vcs, i) + enforce_rule_calls(w0.this, vcs[i], j + 1),
+{
+    lemma_xcall_ext(w1, w2, vcs[i].0.policies@[j], fn_enforce(), seq![vcs[i].1.sv(), av.sv(), vcs[i].0.sv(), w0.this.sv()], SV::Void);
+    lemma_calls_ext_trans(w0, w1, w2);
+    lemma_vec_sv(av);
+    assert(new_calls(w0, w2) =~= enforce_calls(w0.this, vcs, i) + enforce_rule_calls(w0.this, vcs[i], j + 1));
+}
+
+pub open spec fn dca_with(w0: World, w2: World, payload: Seq<u8>, entries: Seq<(Signer, Bytes)>, ctxs: Seq<Context>, vcs: Seq<VC>) -> bool {
+    let la = auth_calls(payload, entries);
+    let le = enforce_calls(w0.this, vcs, vcs.len() as int);
+    let pa = (w0.calls.len() + la.len()) as int;
+    let pe = (w2.calls.len() - le.len()) as int;
+    &&& vcs.len() == ctxs.len()
+    &&& w2 == (World { calls: w2.calls, ext: w2.ext, auth_args: auth_args_after(w0.auth_args, payload, entries), ..w0 })
+    &&& pa <= pe
+    // first every (signer, signature) pair is authenticated ...
+    &&& w2.calls.subrange(0, pa) =~= w0.calls + la
+    // ... then one rule is selected per requested context, in order, the supplied signers being the keys of the signature map ...
+    &&& validated_log(w0, w2.calls.subrange(pa, pe), ctxs, smap_keys(entries), vcs)
+    // ... then exactly the policies of the selected rules are enforced, context by context, and nothing else is called
+    &&& w2.calls.subrange(pe, w2.calls.len() as int) =~= le
+}
+pub open spec fn dca_post(w0: World, w2: World, payload: Seq<u8>, entries: Seq<(Signer, Bytes)>, ctxs: Seq<Context>) -> bool {
+    exists|vcs: Seq<VC>| #[trigger] dca_with(w0, w2, payload, entries, ctxs, vcs)
+}
+pub proof fn lemma_dca_intro(w0: World, wa: World, wv: World, w2: World, payload: Seq<u8>, entries: Seq<(Signer, Bytes)>, ctxs: Seq<Context>, vcs: Seq<VC>)
+    requires
+        authenticate_post(w0, wa, payload, entries),
+        calls_ext(wa, wv), validated_log(w0, new_calls(wa, wv), ctxs, smap_keys(entries), vcs), vcs.len() == ctxs.len(),
+        calls_ext(wv, w2), new_calls(wv, w2) == enforce_calls(w0.this, vcs, vcs.len() as int),
+    ensures dca_post(w0, w2, payload, entries, ctxs),
+{
+    lemma_calls_ext_trans(wa, wv, w2);
+    let la = auth_calls(payload, entries);
+    let le = enforce_calls(w0.this, vcs, vcs.len() as int);
+    let pa = (w0.calls.len() + la.len()) as int;
+    let pe = (w2.calls.len() - le.len()) as int;
+    assert(wa.calls.len() == pa);
+    assert(wv.calls.len() == pe);
+    assert(w2.calls.subrange(0, pa as int) =~= w2.calls.take(wa.calls.len() as int));
+    assert(w2.calls.subrange(pa as int, pe as int) =~= new_calls(wa, wv)) by {
+        assert(w2.calls.take(wv.calls.len() as int) =~= wv.calls);
+        assert forall|i: int| 0 <= i < pe - pa implies w2.calls.subrange(pa as int, pe as int)[i] == new_calls(wa, wv)[i] by {
+            assert(w2.calls.take(wv.calls.len() as int)[pa + i] == wv.calls[pa + i]);
+        }
+    }
+    assert(w2.calls.subrange(pe as int, w2.calls.len() as int) =~= new_calls(wv, w2));
+    assert(dca_with(w0, w2, payload, entries, ctxs, vcs));
+}
